@@ -68,6 +68,7 @@ PT_POOL = [0, 1, 1, 2, 3, 4, 5, 6, 7, 0x60000000, 0x6fffffff, 0x6474e550, 0x6474
 NAMES = [b'', b'.text', b'.data', b'.bss', b'.stab', b'.stabstr', b'.shstrtab', b'.symtab', b'.strtab', b'.rela.text',
          b'.dynamic', b'.note.gnu.build-id', b'.ARM.attributes', b'.riscv.attributes', b'.hash', b'.gnu.hash',
          '.däta'.encode(), 'секция'.encode(), '.漢字'.encode(), '.\U0001f600x'.encode(),
+         b'.zdebug_info', b'.zdebug_str', b'.debug_info', b'.zdebug_line', b'.interp',
          b'x', b'.stab ', b'.sta', b'.STAB', b'a' * 63, b'b' * 64, b'c' * 65, b'.long' + b'n' * 130]
 
 
@@ -171,6 +172,17 @@ def make_case(rng, opts=None):
         names.append(b'' if (i == 0 and rng.random() < 0.6) else rng.choice(pool))
     if n > 2 and rng.random() < 0.5:
         names[rng.randrange(n)] = names[rng.randrange(n)]        # force a duplicate
+    # a section whose NAME suggests a kind its TYPE does not have, placed where a segment of that kind points
+    adv_target = None
+    if n > 1 and o.get('adversarial', rng.random() < 0.15):
+        i = rng.randrange(1, n)
+        nm, ptype, own = rng.choice([(b'.dynamic', 2, (6,)), (b'.dynamic', 2, (6,)), (b'.note.gnu.build-id', 4, (7,)),
+                                     (b'.interp', 3, ()), (b'.symtab', 2, (2,)), (b'.strtab', 2, (3,)),
+                                     (b'.ARM.attributes', 2, (0x70000003,))])
+        if types[i] not in own:
+            names[i] = nm
+            adv_target = (i, ptype)
+            m = max(m, 1)
     if 'long_name' in o and n > 1:
         L = o['long_name']
         names[rng.randrange(1, n)] = (b'.long_' + bytes(rng.choice(b'abcdefgh_.') for _ in range(L)))[:L]
@@ -308,7 +320,10 @@ def make_case(rng, opts=None):
         if j == 0 and 'force_p_type' in o:
             pt = o['force_p_type']
         p_offset = _rand_word(rng, bits)
-        if pt == 2 and n > 0 and rng.random() < 0.6:
+        if j == 0 and adv_target is not None and 'force_p_type' not in o:
+            pt = adv_target[1]
+            p_offset = sections[adv_target[0]][1][4]
+        elif pt == 2 and n > 0 and rng.random() < 0.6:
             dyn = [i for i in range(n) if types[i] == 6]
             if dyn:
                 p_offset = sections[rng.choice(dyn)][1][4]
@@ -460,7 +475,7 @@ def expand_anchor(a, anchors):
 def gen(ctx):
     rng = ctx.rng
     cases = []
-    N = ctx.scale(950, 12000)
+    N = ctx.scale(850, 12000)
     # every class x byte order x table-switching machine at least once, with and without sections
     for is64 in (False, True):
         for le in (False, True):
@@ -472,6 +487,9 @@ def gen(ctx):
     for is64 in (False, True):
         for mach in WIDE_HASH:
             cases.append(('image', make_case(rng, dict(is64=is64, machine=mach, n=3, force_sh_type=5))))
+    # names that suggest another kind than the section's type, at the offset a segment of that kind points to
+    for _ in range(ctx.scale(20, 100)):
+        cases.append(('image', make_case(rng, dict(adversarial=True, n=rng.choice([3, 4, 6])))))
     for _ in range(N):
         cases.append(('image', make_case(rng)))
     # malformed variants of well-formed images (outside the theorem's domain: model vs impl only)
@@ -683,6 +701,17 @@ def _canon_names(ans):
     return ans
 
 
+def _alias_names(a):
+    """the other spelling of the names that have one (.zdebug_x / .debug_x): absent unless the file has both"""
+    present = [nm for nm, _ in a[0][3]]
+    out = []
+    for nm in present:
+        for x, y in ((b'.zdebug_', b'.debug_'), (b'.debug_', b'.zdebug_')):
+            if nm.startswith(x) and (y + nm[len(x):]) not in out:
+                out.append(y + nm[len(x):])
+    return out
+
+
 def _probe_names(a):
     """names to look up: every present name, proper suffixes of present names (tail-merged tables store '.text'
     inside '.rela.text'), strings of the name table that name no section, absent names"""
@@ -696,6 +725,8 @@ def _probe_names(a):
             out.append(nm)
     present = [nm for nm, _ in a[0][3]]
     for nm in present:
+        add(nm)
+    for nm in _alias_names(a):
         add(nm)
     for nm in present:
         if len(nm) > 1:
@@ -727,10 +758,19 @@ def history_ops(a, spec_sections, seed):
         return '<none>' if (not types or r.random() < 0.5) else r.choice(types + ['SHT_GROUP', 0, ''])
     def lookup(pool):
         return [r.choice(['has', 'index', 'by_name']), r.choice(pool)]
+    def pty():
+        return r.choice(['<none>', '<none>', 'PT_DYNAMIC', 'PT_LOAD', 'PT_NOTE', 0, ''])
+    alias = [nm for nm in _alias_names(a) if nm in foreign]
     ops = []
     style = r.randrange(4)
+    if alias and r.random() < 0.5:
+        ops.append(lookup(alias))
+    if a[0][4] and r.random() < 0.35:
+        ops += [lookup(present or probes), ['segs', '<none>']]      # segments created once the name map exists
     if style == 0:
         ops.append(['has', r.choice(foreign if foreign and r.random() < 0.7 else probes)])
+        if a[0][4] and r.random() < 0.6:
+            ops.append(['segs', pty()])           # the Segment objects are created after the name map exists
     elif style == 1 and n > 0:
         k = r.randrange(0, n)
         ops.append(['take', ty(), k])
@@ -742,12 +782,14 @@ def history_ops(a, spec_sections, seed):
         ops.append(lookup(present or probes))
     for _ in range(r.randint(2, 5)):
         x = r.random()
-        if x < 0.6:
+        if x < 0.55:
             ops.append(lookup(probes))
-        elif x < 0.85:
+        elif x < 0.75:
             ops.append(['take', ty(), r.randrange(0, n + 2)])
-        else:
+        elif x < 0.87:
             ops.append(['iter', ty()])
+        else:
+            ops.append(['segs', pty()])
     return ops
 
 
@@ -756,6 +798,8 @@ def impl_history(elf, ops):
     out = []
     for op in ops:
         def f():
+            if op[0] == 'segs':
+                return [_obs_segment(g) for g in elf.iter_segments(type=None if op[1] == '<none>' else op[1])]
             if op[0] in ('take', 'iter'):
                 it = elf.iter_sections(type=None if op[1] == '<none>' else op[1])
                 return [_obs_section(s) for s in (itertools.islice(it, op[2]) if op[0] == 'take' else it)]
@@ -829,7 +873,8 @@ def _drive(drv, kinds, full, imgs):
             probes = _probe_names(a)
             present = [nm for nm in probes if any(nm == s[0] for s in a[0][3])]
             foreign = [nm for nm in probes if nm not in present]
-            for nm in present + rr.sample(foreign, min(len(foreign), 4)):
+            alias = [nm for nm in _alias_names(a) if nm in foreign]
+            for nm in present + alias + rr.sample(foreign, min(len(foreign), 4)):
                 qs.append(['by_name', nm])
             if kind != 'malformed':
                 ops = history_ops(a, secs, a[2])
@@ -853,21 +898,37 @@ def _drive(drv, kinds, full, imgs):
     return out
 
 
-def _impl(ELFFile, img, d, elf=None):
-    """the real library on one image: the queries on one object (name lookups on fresh ones), then the
-    call history on ONE fresh object"""
+def _stream_kind(a):
+    """the kind of stream the library is given for this image (tools/lib/streams.py): a function of the abstract
+    image, so that a replay meets the same kind"""
+    from tools.lib.streams import draw_kind
+    return draw_kind(random.Random(a[2] ^ 0x7f4a7c15), p_bytesio=0.75)
+
+
+def _impl(ELFFile, img, d, S, kind, elf=None):
+    """the real library on one image, every object on a stream of the drawn kind: the queries on one object
+    (name lookups on fresh ones), then the call history on ONE fresh object"""
     try:
         if elf is None:
-            elf = ELFFile(io.BytesIO(img))
-        impl = [_impl_answer(elf, q, lambda: ELFFile(io.BytesIO(img))) for q in d['queries']]
+            elf = ELFFile(S.open(img, kind))
+        impl = [_impl_answer(elf, q, lambda: ELFFile(S.open(img, kind))) for q in d['queries']]
         if d['ops']:
-            impl += impl_history(ELFFile(io.BytesIO(img)), d['ops'])
+            impl += impl_history(ELFFile(S.open(img, kind)), d['ops'])
     except Exception as e:          # noqa: constructor failure is the answer to every query
         impl = [['err', type(e).__name__] for _ in d['queries'] + d['ops']]
     return impl
 
 
 def evaluate(ctx, cases):
+    from tools.lib.streams import Streams
+    S = Streams()
+    try:
+        _evaluate(ctx, cases, S)
+    finally:
+        S.close()
+
+
+def _evaluate(ctx, cases, S):
     from elftools.elf.elffile import ELFFile
     drv = ctx.driver
     # ---- flatten: one entry per image (a pair case has two)
@@ -908,11 +969,13 @@ def evaluate(ctx, cases):
             # open A, open B, then read A, read B, read A again: every answer must be the one of that image alone
             ia, ib = ids
             try:
-                elfa = ELFFile(io.BytesIO(imgs[ia]))
-                elfb = ELFFile(io.BytesIO(imgs[ib]))
-                impl = _impl(ELFFile, imgs[ia], driven[ia], elfa) + _impl(ELFFile, imgs[ib], driven[ib], elfb)
+                ka, kb = _stream_kind(full[ia]), _stream_kind(full[ib])
+                ctx.bump('stream_kind', ka); ctx.bump('stream_kind', kb)
+                elfa = ELFFile(S.open(imgs[ia], ka))
+                elfb = ELFFile(S.open(imgs[ib], kb))
+                impl = _impl(ELFFile, imgs[ia], driven[ia], S, ka, elfa) + _impl(ELFFile, imgs[ib], driven[ib], S, kb, elfb)
                 again = dict(queries=driven[ia]['queries'][:6], ops=[])
-                impl += _impl(ELFFile, imgs[ia], again, elfa)
+                impl += _impl(ELFFile, imgs[ia], again, S, ka, elfa)
             except Exception as e:      # noqa
                 impl = [['err', type(e).__name__]]
             da, db = driven[ia], driven[ib]
@@ -931,13 +994,17 @@ def evaluate(ctx, cases):
             if not in_domain:
                 spec = model
             ctx.record(kind, a0, impl=impl, spec=spec, model=model, in_domain=in_domain, nontrivial=True, key=key,
-                       detail={'wf': in_domain, 'len': len(imgs[ia]) + len(imgs[ib])})
+                       detail={'wf': in_domain, 'len': len(imgs[ia]) + len(imgs[ib]), 'stream': [ka, kb]})
+            S.drop_files()
             continue
         i = ids[0]
         a, img, d = full[i], imgs[i], driven[i]
         queries = d['queries'] + [['history', o] for o in d['ops']]
         wf, model, spec = d['wf'], d['model'], d['spec']
-        impl = _impl(ELFFile, img, d)
+        skind = _stream_kind(a)
+        ctx.bump('stream_kind', skind)
+        impl = _impl(ELFFile, img, d, S, skind)
+        S.drop_files()
         in_domain = wf and kind != 'malformed'
         if kind in ('edge', 'big') and not wf:
             raise RuntimeError('C01 harness: a %s image is not certified by wf_image (py_encode or the generator is wrong)' % kind)
@@ -976,4 +1043,4 @@ def evaluate(ctx, cases):
             ctx.bump('edge_counts', '%x/%x/%x' % (len(sp[3]), sp[5], len(sp[4])))
         ctx.record(kind, a0, impl=_abbrev(impl), spec=_abbrev(spec), model=_abbrev(model), in_domain=in_domain,
                    nontrivial=bool(sp[3] or sp[4]), key=key,
-                   detail={'wf': wf, 'len': len(img)})
+                   detail={'wf': wf, 'len': len(img), 'stream': skind})
